@@ -7,6 +7,7 @@ Follows GenJAX patterns for vectorized computation and programmable inference.
 """
 
 import jax.numpy as jnp
+import jax.tree_util as jtu
 from jax.lax import scan
 from typing import Any
 
@@ -29,12 +30,12 @@ class VariationalApproximation(Pytree):
         n_iterations: Number of optimization iterations performed.
     """
 
-    final_params: jnp.ndarray
-    param_history: jnp.ndarray
+    final_params: Any
+    param_history: Any
     loss_history: jnp.ndarray
     n_iterations: Const[int]
 
-    def get_final_params(self) -> jnp.ndarray:
+    def get_final_params(self) -> Any:
         """Get the final optimized parameters."""
         return self.final_params
 
@@ -42,7 +43,7 @@ class VariationalApproximation(Pytree):
         """Get the history of loss values during optimization."""
         return self.loss_history
 
-    def get_param_history(self) -> jnp.ndarray:
+    def get_param_history(self) -> Any:
         """Get the history of parameter values during optimization."""
         return self.param_history
 
@@ -91,7 +92,7 @@ def elbo_factory(
 
 def optimize_vi(
     elbo_fn: Any,
-    init_params: jnp.ndarray,
+    init_params: Any,
     learning_rate: float = 1e-3,
     n_iterations: int = 1000,
     track_history: bool = True,
@@ -116,7 +117,11 @@ def optimize_vi(
         param_grad = elbo_fn.grad_estimate(params)
 
         # Gradient ascent step (maximizing ELBO)
-        new_params = params + learning_rate * param_grad
+        # Parameters may be an array or a pytree of arrays (the full-covariance
+        # family takes {"mean", "chol_cov"}).
+        new_params = jtu.tree_map(
+            lambda p, g: p + learning_rate * g, params, param_grad
+        )
 
         if track_history:
             return new_params, (new_params, 0.0)  # Placeholder loss for now
@@ -237,7 +242,7 @@ def full_covariance_normal_family(
 def elbo_vi(
     target_gf: GFI[X, R],
     variational_family: GFI[X, R],
-    init_params: jnp.ndarray,
+    init_params: Any,
     constraint: X,
     target_args: tuple = (),
     learning_rate: float = 1e-3,
